@@ -254,6 +254,14 @@ def _children(ck: Checker, rule: str = "C17.children") -> None:
                     # unconditional inside the inner loop
                     rr = g.reach([d for lab, d in ih.succ if lab == "T"], skip_node=lambda x: x.id == n.id, skip_edge=lambda p, l, q: l == "exc")
                     ok = ih.id not in rr
+                    # ... and the prefix loop itself is reached for every row that has a proper prefix (a key of
+                    # two or more components): the only guard that may go round it is "shorter than two"
+                    short_ = (f"len({ik}) >= 2", f"len({ik}) > 1")
+                    r_out = g.reach([d for lab, d in h.succ if lab == "T"], skip_node=lambda x, ih=ih: x.id == ih.id,
+                                    skip_edge=lambda p, l, q: l == "exc" or (p.kind == "test" and l == "F" and norm(p.ast) in short_) or (p.kind == "test" and l == "T" and norm(p.ast) in (f"len({ik}) < 2", f"len({ik}) <= 1")))
+                    if h.id in r_out:
+                        ok = False
+                        why = f"the prefix loop is skipped for some rows that have a proper prefix (guard other than `len({ik}) >= 2`)"
                 else:
                     why = f"prefix loop is `for {iv} in {norm(it)}` adding {norm(c.args[0])}: it does not enumerate every proper prefix {ik}[:1] .. {ik}[:-1]"
     # the same collection written as one bulk update:  dirs.update(ikey[:-idx] for idx in range(1, len(ikey)))
@@ -277,7 +285,7 @@ def _children(ck: Checker, rule: str = "C17.children") -> None:
                     # a key shorter than two components has no proper prefix: skipping it loses nothing
                     short = (f"len({ik}) >= 2", f"len({ik}) > 1")
                     rr = g.reach([d for lab, d in h.succ if lab == "T"], skip_node=lambda x, n=n: x.id == n.id,
-                                 skip_edge=lambda p, l, q: l == "exc" or (p.kind == "test" and l == "F" and norm(p.ast) in short))
+                                 skip_edge=lambda p, l, q: l == "exc" or (p.kind == "test" and l == "F" and norm(p.ast) in short) or (p.kind == "test" and l == "T" and norm(p.ast) in (f"len({ik}) < 2", f"len({ik}) <= 1")))
                     ok = ok or h.id not in rr
                 else:
                     why = f"bulk prefix collection {norm(c)} does not enumerate every proper prefix {ik}[:1] .. {ik}[:-1]"
